@@ -27,6 +27,9 @@ type SrcStats struct {
 	Name      string
 }
 
+// Chunks returns the sequence of chunks the script delivers.
+func (s *SrcScript) Chunks() [][]byte { return s.chunks() }
+
 func (s *SrcScript) chunks() [][]byte {
 	var out [][]byte
 	prev := 0
